@@ -5,16 +5,17 @@ arithmetic as ground truth, np.shares_memory and deep snapshots for aliasing).''
 import json
 import math
 import operator
+import os
 import time
 from collections import OrderedDict
 
 import numpy as np
 
 from vp import common
-from vp.common import cz, cn, cb, clist, cstr, canon_bits, bits_f64
+from vp.common import cn, cb, clist, cstr, canon_bits, bits_f64
 
-IMPORTS = '''From Coq Require Import List ZArith String.
-From VV Require Import Lib.Base Lib.B64 C08.Model.
+IMPORTS = '''From Coq Require Import List ZArith String Uint63.
+From VV Require Import Lib.Base Lib.B64 C08.Model C08.Lits.
 Import ListNotations.
 '''
 
@@ -111,8 +112,15 @@ def ds_json(dset):
 # --------------------------------------------------------------------------
 # Coq literals
 
+def coq_fb(bits):
+    '''64-bit pattern as sign + 63 bits in a primitive integer (C08/Lits.v): a
+    [positive] literal costs 64 kernel nodes, this one 2'''
+    bits = int(bits)
+    return f'Nf {bits - 2 ** 63}' if bits >= 2 ** 63 else f'Pf {bits}'
+
+
 def coq_fl(bits):
-    return '(fl ' + clist([cz(b) for b in bits]) + ')'
+    return '(fq ' + clist([coq_fb(b) for b in bits]) + '%uint63)'
 
 
 def coq_mask(mask):
@@ -136,7 +144,7 @@ def coq_op(mop):
         return '(OMask ' + clist([cb(x) for x in mop['m']]) + ')'
     rhs = mop['rhs']
     if rhs['k'] == 'num':
-        lit = f'(RNum (of_bits {cz(rhs["v"])}))'
+        lit = f'(RNum (f1 ({coq_fb(rhs["v"])})%uint63))'
     elif rhs['k'] == 'arr':
         lit = '(RArr ' + clist([cn(n) for n in rhs['shape']]) + ' ' + coq_fl(rhs['data']) + ')'
     else:
@@ -339,8 +347,8 @@ def oracle_mask(ctx, left, mask, out, case):
     if isinstance(out, Exception):
         ctx.oracle_failure(f'mask raises {type(out).__name__} :: {case}', case, key='mask-raises')
         return
-    want_mask = np.ma.getmaskarray(left.value) | mask
     for comp, orig in ((out.value, left.value), (out.error, left.error)):
+        want_mask = np.ma.getmaskarray(orig) | mask     # an earlier mask is kept
         if np.shape(comp) != np.shape(orig) or \
                 not np.array_equal(np.ma.getmaskarray(comp), want_mask) or \
                 np.ma.getdata(comp)[~want_mask].tobytes() != np.ma.getdata(orig)[~want_mask].tobytes():
@@ -720,8 +728,13 @@ def run(ctx):
                 'arithmetic step succeeds on a non-empty dataset; distinct by case content')
     quick = ctx.tier == 'quick'
     cases = corpus()
+    cdir = os.path.join(common.VERIF, 'corpus', 'C08')     # stored boundary / regression chains
+    if os.path.isdir(cdir):
+        for fname in sorted(os.listdir(cdir)):
+            if fname.endswith('.json'):
+                cases.append(json.load(open(os.path.join(cdir, fname))))
     ctx.count('corpus', len(cases))
-    nrand = 1000 if quick else 20000
+    nrand = 1500 if quick else 20000
     for k in range(nrand):
         special = 0.15 if k % 10 == 9 else 0.0
         cases.append(gen_case(ctx.rng, special=special))
